@@ -30,12 +30,14 @@ pub struct SCfg {
     pub block_size: Option<usize>,
     pub interval: Option<usize>,
     pub levels: Option<u8>,
+    /// seed of the order in which the builder setters are called (0 = declaration order)
+    pub order: u64,
 }
 
 impl SCfg {
     pub fn render(&self) -> String {
         format!(
-            "budget={}{} initial={:?} allow_realloc={} max_nb_chunks={} sort={}{} chunk(codec={:?} level={:?} block_size={:?} interval={:?} index_levels={:?})",
+            "budget={}{} initial={:?} allow_realloc={} max_nb_chunks={} sort={}{} chunk(codec={:?} level={:?} block_size={:?} interval={:?} index_levels={:?}) setter_order_seed={}",
             self.budget,
             if self.raw { "(raw,H2)" } else { "(public API, clamped to >= 10MiB)" },
             self.initial,
@@ -47,7 +49,8 @@ impl SCfg {
             self.level,
             self.block_size,
             self.interval,
-            self.levels
+            self.levels,
+            self.order
         )
     }
     /// The effective memory budget T of C08.
@@ -62,32 +65,72 @@ impl SCfg {
         WCfg { codec: self.codec.unwrap_or(CompressionType::None), level: self.level.unwrap_or(0), block_size: self.block_size, interval: self.interval, levels: self.levels }
     }
     pub fn build<CC: ChunkCreator>(&self, mf: MonMerge, cc: CC) -> Sorter<MonMerge, CC> {
-        let mut b = SorterBuilder::new(mf).chunk_creator(cc);
-        if self.raw {
-            b.verif_raw_limits(self.budget, self.initial);
+        // The setters are independent: they are called in an order drawn from `order` (and the
+        // chunk creator is attached first or last), so that order-dependent builders show.
+        let mut steps: Vec<u8> = (0..10).collect();
+        if self.order != 0 {
+            Rng::new(self.order).shuffle(&mut steps);
+        }
+        let creator_first = self.order % 2 == 0;
+        fn apply<MF, CC2>(this: &SCfg, b: &mut SorterBuilder<MF, CC2>, steps: &[u8]) {
+            for st in steps {
+                match st {
+                    0 => {
+                        if this.raw {
+                            b.verif_raw_limits(this.budget, this.initial);
+                        } else {
+                            b.dump_threshold(this.budget);
+                        }
+                    }
+                    1 => {
+                        b.allow_realloc(this.allow_realloc);
+                    }
+                    2 => {
+                        b.max_nb_chunks(this.max_nb_chunks);
+                    }
+                    3 => {
+                        b.sort_algorithm(if this.stable { SortAlgorithm::Stable } else { SortAlgorithm::Unstable });
+                    }
+                    4 => {
+                        b.sort_in_parallel(this.parallel);
+                    }
+                    5 => {
+                        if let Some(c) = this.codec {
+                            b.chunk_compression_type(c);
+                        }
+                    }
+                    6 => {
+                        if let Some(l) = this.level {
+                            b.chunk_compression_level(l);
+                        }
+                    }
+                    7 => {
+                        if let Some(bs) = this.block_size {
+                            b.block_size(bs);
+                        }
+                    }
+                    8 => {
+                        if let Some(i) = this.interval {
+                            b.index_key_interval(NonZeroUsize::new(i).unwrap());
+                        }
+                    }
+                    _ => {
+                        if let Some(l) = this.levels {
+                            b.index_levels(l);
+                        }
+                    }
+                }
+            }
+        }
+        if creator_first {
+            let mut b = SorterBuilder::new(mf).chunk_creator(cc);
+            apply(self, &mut b, &steps);
+            b.build()
         } else {
-            b.dump_threshold(self.budget);
+            let mut b = SorterBuilder::new(mf);
+            apply(self, &mut b, &steps);
+            b.chunk_creator(cc).build()
         }
-        b.allow_realloc(self.allow_realloc);
-        b.max_nb_chunks(self.max_nb_chunks);
-        b.sort_algorithm(if self.stable { SortAlgorithm::Stable } else { SortAlgorithm::Unstable });
-        b.sort_in_parallel(self.parallel);
-        if let Some(c) = self.codec {
-            b.chunk_compression_type(c);
-        }
-        if let Some(l) = self.level {
-            b.chunk_compression_level(l);
-        }
-        if let Some(bs) = self.block_size {
-            b.block_size(bs);
-        }
-        if let Some(i) = self.interval {
-            b.index_key_interval(NonZeroUsize::new(i).unwrap());
-        }
-        if let Some(l) = self.levels {
-            b.index_levels(l);
-        }
-        b.build()
     }
 }
 
@@ -122,6 +165,7 @@ pub fn gen_scfg(rng: &mut Rng) -> SCfg {
         block_size: w.block_size,
         interval: w.interval,
         levels: w.levels.map(|l| l.min(3)),
+        order: rng.next_u64(),
     }
 }
 
@@ -322,7 +366,8 @@ pub fn gen_inserts(rng: &mut Rng, n: usize, universe: usize, max_val: usize, tok
 
 /// Same, stopping once `max_total` bytes of keys and values have been generated.
 pub fn gen_inserts_capped(rng: &mut Rng, n: usize, universe: usize, max_val: usize, tokens: bool, big_every: Option<(usize, usize)>, max_total: usize) -> InsertPlan {
-    let key_style = rng.below(3);
+    let key_style = rng.below(4);
+    let tiny = crate::gen::gen_keys(rng, crate::gen::KeyShape::K1, universe.max(2) * 2);
     let keys: Vec<Vec<u8>> = (0..universe)
         .map(|i| match key_style {
             0 => (i as u32).to_be_bytes().to_vec(),
@@ -333,6 +378,7 @@ pub fn gen_inserts_capped(rng: &mut Rng, n: usize, universe: usize, max_val: usi
                 k.extend(rng.bytes(extra));
                 k
             }
+            2 => tiny[i % tiny.len()].clone(),
             _ => {
                 if i == 0 {
                     vec![]
